@@ -7,6 +7,7 @@
   standard.  The theorems hold for every byte string of every length.
 -/
 import DlmsVerif.Lemmas.Crc
+import DlmsVerif.Lemmas.CrcAlgebra
 
 namespace Props.C12
 open Spec.Crc Model.Crc Lemmas.Crc
@@ -70,6 +71,12 @@ theorem C12_tables :
     Gen.Crc.startingValue = 0xFFFF ∧ Gen.Crc.polyConstant = 0x1021 ∧
     Gen.Crc.crcTable.length = 256 := by
   refine ⟨?_, rev8_ok, ?_, ?_, ?_, ?_⟩ <;> decide +kernel
+
+/-- **residue**: a message followed by its check value always leaves the fixed X-25 residue
+    in the register (so a receiver can verify a frame by running the register over body and
+    check value and comparing with one constant). -/
+theorem C12_residue (m : Bytes) : x25reg (m ++ fcs m) = residue :=
+  Lemmas.CrcAlgebra.x25reg_append_fcs m
 
 /-- non-vacuity / known answer: the standard check string. -/
 example : implFcs "123456789".toUTF8.toList = [0x6E, 0x90] := by decide +kernel
